@@ -753,9 +753,9 @@ fn c07_check(s: &mut Sink, eng: Eng, c: &C07Case) {
 fn c07_cases(thorough: bool) -> Vec<C07Case> {
     let mut v = vec![];
     let calcs: Vec<Calc> = if thorough {
-        vec![Calc::None, Calc::Const(0), Calc::Const(8), Calc::Const(64), Calc::Const(256), Calc::Const(512), Calc::Const(65535), Calc::PcDep, Calc::ProgDep]
+        vec![Calc::None, Calc::Const(0), Calc::Const(1), Calc::Const(8), Calc::Const(13), Calc::Const(60), Calc::Const(64), Calc::Const(255), Calc::Const(256), Calc::Const(511), Calc::Const(512), Calc::Const(65535), Calc::PcDep, Calc::ProgDep]
     } else {
-        vec![Calc::None, Calc::Const(0), Calc::Const(64), Calc::Const(512), Calc::PcDep, Calc::ProgDep]
+        vec![Calc::None, Calc::Const(0), Calc::Const(13), Calc::Const(60), Calc::Const(64), Calc::Const(512), Calc::PcDep, Calc::ProgDep]
     };
     for depth in 0..=9u8 {
         for reversed in [false, true] {
@@ -806,7 +806,7 @@ pub fn run_c07(s: &mut Sink) {
     s.meta.insert("alphabet".into(), json!({
         "call_graphs": "chains main -> f1 -> ... -> fd for d = 0..9 laid out forward or backward (negative displacements); binary call trees (every function calls its callee twice) of depth 1..4; self-recursion bounded by a counter in r1 for depth 0..9",
         "bodies": "16 combinations of {set r6-r9 in every function, stack tag at [r10-8] written and read back after the call, lowest slot of the frame touched, helper call inside every function}",
-        "calculators": if thorough {"none, const 0, 8, 64, 256, 512, 65535, pc-dependent 16+8*pc, program-dependent 16+8*((len+pc)%32)"} else {"none, const 0, 64, 512, pc-dependent, program-dependent"},
+        "calculators": if thorough {"none, const 0, 1, 8, 13, 60, 64, 255, 256, 511, 512, 65535, pc-dependent 16+8*pc, program-dependent 16+8*((len+pc)%32)"} else {"none, const 0, 13, 60, 64, 512, pc-dependent, program-dependent"},
         "variants": "program loaded with set_program after another program and the calculator, or after new(None) and the calculator (reload 1, 2); a packet load (ldabsb) immediately before every call, on a raw VM",
         "register_contents": if thorough {"all 31 V64 values"} else {"3 V64 values"},
         "engines": ["interp (vs reference machine)", "jit (vs interpreter where defined)"],
